@@ -14,22 +14,34 @@ structure GraphWF0 (inits : List TensorP) (inputs outputs vis : List ValueInfoP)
   wfIn : inputs.all wfVI = true
   wfOut : outputs.all wfVI = true
   wfVis : vis.all wfVI = true
-  nodupOut : (outputs.map (·.name)).Nodup
   wfInit : inits.all (fun t => wfTensor t && validDType t.dataType) = true
 
 theorem GraphWF.to0 {inits : List TensorP} {inputs outputs vis : List ValueInfoP} {quant : List AnnotP}
     {outs : List String} (hw : GraphWF inits inputs outputs vis quant outs) :
     GraphWF0 inits inputs outputs vis outs :=
-  ⟨hw.nodupNames, hw.nonempty, hw.nodupInit, hw.wfIn, hw.wfOut, hw.wfVis, hw.nodupOut, hw.wfInit⟩
+  ⟨hw.nodupNames, hw.nonempty, hw.nodupInit, hw.wfIn, hw.wfOut, hw.wfVis, hw.wfInit⟩
 
-theorem graph_des_closed (outer : Scopes) (name doc : String) (nodes : List NodeP)
+/-- the table the deserialized graph holds, in general (E4: output entries may repeat a name) -/
+def tblFinalAll (inits : List TensorP) (inputs outputs vis : List ValueInfoP) (quant : List AnnotP)
+    (outs : List String) : List IRValue :=
+  (tblPre inits inputs vis quant outs).map (outUpdAll outputs)
+
+theorem tblFinalAll_of_cons {inits : List TensorP} {inputs outputs vis : List ValueInfoP} {quant : List AnnotP}
+    {outs : List String} (hc : ConsOut outputs) :
+    tblFinalAll inits inputs outputs vis quant outs = tblFinal inits inputs outputs vis quant outs := by
+  unfold tblFinalAll tblFinal
+  apply List.map_congr_left
+  intro v _
+  exact outUpdAll_of_cons hc v
+
+theorem graph_des_closedAll (outer : Scopes) (name doc : String) (nodes : List NodeP)
     (inits : List TensorP) (inputs outputs vis : List ValueInfoP) (quant : List AnnotP)
     (metadata : List Entry)
     (hw : GraphWF0 inits inputs outputs vis (nodeOutNames nodes)) (xs : List IRNode)
     (hD1 : desNodes outer vis quant nodes (tblPre inits inputs vis quant (nodeOutNames nodes))
       = .ok (xs, tblPre inits inputs vis quant (nodeOutNames nodes))) :
     ∃ idxs, desGraph outer (.mk name doc nodes inits inputs outputs vis quant metadata) =
-        .ok (IRGraph.mk (tblFinal inits inputs outputs vis quant (nodeOutNames nodes))
+        .ok (IRGraph.mk (tblFinalAll inits inputs outputs vis quant (nodeOutNames nodes))
           (List.range inputs.length) (dedupNat idxs) xs
           (outputs.map (gOutT (scopeNames (inputs.map (·.name)) (inits.map (·.name)) (nodeOutNames nodes))))
           name doc [] (dictOfEntries metadata)) ∧
@@ -73,8 +85,8 @@ theorem graph_des_closed (outer : Scopes) (name doc : String) (nodes : List Node
     ((inputs.map (inputValT quant)).map (constFrom inits)
       ++ (newInits (inputs.map (·.name)) inits).map (initValT vis quant))
     (by intro n hn hm; rw [hNB] at hm; exact hdisC n hm n hn rfl) hndC
-  have hE := desGraphOutputs_spec outputs (tblPre inits inputs vis quant (nodeOutNames nodes))
-    hw.wfOut hw.nodupOut (by rw [hNpre]; exact hw.nodupNames)
+  have hE := desGraphOutputs_specAll outputs (tblPre inits inputs vis quant (nodeOutNames nodes))
+    hw.wfOut (by rw [hNpre]; exact hw.nodupNames)
   rw [hNpre] at hE
   refine ⟨idxs, ?_, by rw [hidx, hNB]⟩
   simp only [desGraph, hA, hT, hB, hC, bind, Except.bind]
@@ -84,6 +96,23 @@ theorem graph_des_closed (outer : Scopes) (name doc : String) (nodes : List Node
       = tblPre inits inputs vis quant (nodeOutNames nodes) := rfl
   simp only [this, hD1, hE]
   rfl
+
+theorem graph_des_closed (outer : Scopes) (name doc : String) (nodes : List NodeP)
+    (inits : List TensorP) (inputs outputs vis : List ValueInfoP) (quant : List AnnotP)
+    (metadata : List Entry)
+    (hw : GraphWF0 inits inputs outputs vis (nodeOutNames nodes)) (hc : ConsOut outputs) (xs : List IRNode)
+    (hD1 : desNodes outer vis quant nodes (tblPre inits inputs vis quant (nodeOutNames nodes))
+      = .ok (xs, tblPre inits inputs vis quant (nodeOutNames nodes))) :
+    ∃ idxs, desGraph outer (.mk name doc nodes inits inputs outputs vis quant metadata) =
+        .ok (IRGraph.mk (tblFinal inits inputs outputs vis quant (nodeOutNames nodes))
+          (List.range inputs.length) (dedupNat idxs) xs
+          (outputs.map (gOutT (scopeNames (inputs.map (·.name)) (inits.map (·.name)) (nodeOutNames nodes))))
+          name doc [] (dictOfEntries metadata)) ∧
+      idxs.map some = inits.map (fun p => lookupLast
+        (inputs.map (·.name) ++ (inits.map (·.name)).filter (fun n => !(inputs.map (·.name)).contains n))
+        p.name) := by
+  rw [← tblFinalAll_of_cons hc]
+  exact graph_des_closedAll outer name doc nodes inits inputs outputs vis quant metadata hw xs hD1
 
 
 /-- the table of a deserialized well-formed graph holds exactly the names of its scope -/
@@ -95,7 +124,7 @@ theorem desGraph_table_names (outer : Scopes) : ∀ (g : GraphP) (x : IRGraph), 
     obtain ⟨hw, hwn⟩ := graphWF_of_wf outer name doc nodes inits inputs outputs vis quant md h
     obtain ⟨xs, n1, _, _⟩ := nodes_rt outer vis quant none nodes
       (tblPre inits inputs vis quant (nodeOutNames nodes)) (by rw [tableNames_tblPre]; exact hwn) (Or.inl rfl)
-    obtain ⟨idxs, c1, _⟩ := graph_des_closed outer name doc nodes inits inputs outputs vis quant md hw.to0 xs n1
+    obtain ⟨idxs, c1, _⟩ := graph_des_closed outer name doc nodes inits inputs outputs vis quant md hw.to0 hw.consOut xs n1
     rw [c1] at hd
     simp only [Except.ok.injEq] at hd
     rw [← hd]
